@@ -13,7 +13,7 @@ LEVEL = "model_checking"
 
 def run(ctx):
     res = c06.collect(ctx)
-    c06.report(ctx, res, rpcpipe.C07_EVENTS, "C06")
+    c06.report(ctx, res, lambda key: key in rpcpipe.C07_EVENTS, "C06")
 
 
 replay = c06.replay
